@@ -140,7 +140,7 @@ PROPS = {
     "C03": dict(
         functions=[DS + "AbstractDissimilarity._compute_alignment_disorders", DS + "AbstractDissimilarity._build_arrays_continuum",
                    DS + "AbstractDissimilarity._build_arrays_alignment", AL + "Alignment.annotators", AL + "Alignment.categories#attached",
-                   DS + "AbstractDissimilarity.compute_disorder", AL + "Alignment.compute_disorder",
+                   DS + "AbstractDissimilarity.compute_disorder", AL + "Alignment.compute_disorder", AL + "SoftAlignment.compute_disorder",
                    AL + "Alignment.avg_num_annotations_per_annotator#attached",
                    CT + "Continuum.avg_num_annotations_per_annotator", CT + "Continuum.num_units", CT + "Continuum.num_annotators"]
                   + ALIGN_CTORS + [AL + "SoftAlignment.__init__", CT + "Continuum.get_best_alignment", CT + "Continuum.get_best_soft_alignment"],
